@@ -92,6 +92,15 @@ def run(chk):
         if i != "err":
             chk.violate({"kind": "property", "case": lib.show_case(c), "impl": i[:1000], "malformed_class": k,
                          "explanation": "a malformed field (%s) was not rejected with an error and no result" % k})
+    # the same malformed fields through the other door, Dependency.UnmarshalControl (what the control decoder calls for a
+    # dependency-typed struct field): rejected there too
+    uc = [("dcontrol", c[1]) for c in cases]
+    ui = chk.run_impl(uc)
+    chk.record("malformed-classes-unmarshalcontrol", uc, ui, lambda c, r: True)
+    for c, i, k in zip(uc, ui, kinds):
+        if i != "err":
+            chk.violate({"kind": "property", "case": lib.show_case(c), "impl": i[:1000], "malformed_class": k,
+                         "explanation": "a malformed field (%s) was accepted by Dependency.UnmarshalControl although Parse rejects it" % k})
     chk.extra["malformed_classes"] = sorted(set(kinds))
     # single-edit corruptions of valid fields: model vs implementation (ok/err and structure)
     cases = []
